@@ -3,11 +3,12 @@
     every sequence of drain calls):  the bytes handed out are a prefix of the buffered bytes, each handed out exactly
     once and in order; exactly those bytes are fed to the hasher; nothing else of the decoder state changes; while the
     frame is unfinished at least [window] bytes stay behind; decoding blocks only appends and counts exactly the bytes
-    it takes from the source.  What is NOT yet a theorem (covered by the correspondence run and its oracle only):
-    that a block decodes to the same bytes whether or not older bytes beyond the window were drained
-    (locality of match copies for window-respecting frames) -- hence [C06_drivers_partial] in the manifest text. *)
+    it takes from the source; and whatever the block loop decodes with less history behind the buffer it decodes with
+    more (so draining, which only removes the oldest bytes, cannot change the bytes of a frame whose offsets stay
+    inside what is retained).  Frames with a dictionary are covered by the correspondence run only for that last part. *)
 Require Import Zrs.lib.RsPrelude Zrs.gen.Generated Zrs.model.BlockDec Zrs.model.FrameDec.
 Require Import Zrs.proofs.C06_Drain Zrs.proofs.C05_Block Zrs.proofs.C06_Frame.
+Require Import Zrs.proofs.C06_History Zrs.proofs.C05_Block.
 Open Scope Z_scope.
 
 (** the common drain routine with ANY sink: no byte lost, none duplicated, hash = delivered *)
@@ -52,6 +53,24 @@ Theorem C06_decode_blocks_appends : forall fuel s src strat len_before blocks_be
   (strat <> SAll -> db_len (st_buf s') <= strat_bound strat s len_before blocks_before).
 Proof. exact decode_blocks_loop_inv. Qed.
 
+(** draining only removes the oldest bytes of the buffer: whatever the block loop decodes with LESS history it decodes
+    with MORE history -- the same frame state, the extra history still behind the buffer -- so for frames whose offsets
+    stay inside what is retained the decoded bytes do not depend on whether and when the caller drained (frames without
+    dictionary; with one, the reach of the dictionary itself depends on the output count: C09) *)
+Theorem C06_more_history_same_result : forall fuel s src lb lb' bb s' rest old,
+  st_ok s -> db_dict (sc_buf (fr_scratch s)) = [] -> bytes_ok src = true ->
+  decode_blocks_loop fuel s src SAll lb bb = ROk (s', rest) ->
+  decode_blocks_loop fuel (st_extend s old) src SAll lb' bb = ROk (st_extend s' old, rest).
+Proof. exact loop_more_history. Qed.
+
+Theorem C06_sequences_more_history : forall seqs lits buf hist buf' hist' old,
+  db_wf buf -> db_dict buf = [] -> hist_ok hist -> Forall seq_ok seqs ->
+  execute_sequences seqs lits buf hist = ROk (buf', hist') ->
+  execute_sequences seqs lits (extend buf old) hist = ROk (extend buf' old, hist').
+Proof. exact execute_sequences_more_history. Qed.
+
+Print Assumptions C06_more_history_same_result.
+Print Assumptions C06_sequences_more_history.
 Print Assumptions C06_sink_no_loss_no_dup.
 Print Assumptions C06_collect.
 Print Assumptions C06_read.
